@@ -147,6 +147,7 @@ func VerifLazy(callers int) {
 	x := vNondetInt("x")
 	l := Lazy(func() int {
 		vAtomic(func() { runs++ })
+		vWindow() // natively the initialiser takes a while, so that first calls really overlap
 		return x
 	})
 	got := make([]int, callers)
